@@ -19,4 +19,8 @@ def obligations(tier):
           for resp in range(ny):
             obs.append(Ob(id=f'mlr/n{n}p{p}ny{ny}/response{resp}', harness='C07/mlr.c', tus=T, defs={'HP_N': n, 'HP_P': p, 'HP_NY': ny, 'HP_RESP': resp}, engine='real', unwind=10, timeout=to,
                           clause='normal equations, predictions, R2, SDEC', stubs=('sym_real_env.c',), real={'nomissing': True}))
+    for off in ('16777216.0', '134217728.0', '-1000000000.0'):
+        for n in ((2, 3) if not th else (2, 3, 4)):
+            obs.append(Ob(id=f'ieee_offset/r2/n{n}/off{off}', harness='C07/ieee_offset.c', tus=T, defs={'HP_N': n, 'HP_OFFSET': off}, engine='bits', unwind=8, timeout=300 if not th else 1800,
+                          clause='reported R2 in IEEE arithmetic on offset responses', stubs=('sym_bits_env.c', 'sym_sqrt_axioms_bits.c'), object_bits=10))
     return obs
